@@ -181,6 +181,13 @@ def normalise(e):
     return (name, *fields, tuple(sorted(meta.items(), key=str)))
 
 
+def reparse(printed, ledger_text):
+    """Parse PRINT output in the context of the ledger's own options (root account names)."""
+    from beancount.parser import parser as bparser
+    opts = '\n'.join(l for l in ledger_text.splitlines() if l.startswith('option "name_'))
+    return bparser.parse_string((opts + '\n' if opts else '') + printed)
+
+
 def check_print(ctx, rng, conn, entries, case, full_reload):
     from beanquery import compiler, query_execute
     from beancount.parser import parser as bparser
@@ -195,7 +202,7 @@ def check_print(ctx, rng, conn, entries, case, full_reload):
         ctx.violation(f'c14.print_failed.{monitors.classify_exception(exc)}', f'{text}: {type(exc).__name__}: {exc}', case)
         return
     printed = out.getvalue()
-    pentries, perrors, _ = bparser.parse_string(printed)
+    pentries, perrors, _ = reparse(printed, case['ledger'])
     exp = [e for e in entries if pred(e)]
     ctx.case((case['digest'], text), len(exp) >= 2)
     ctx.count('obs.print_cases')
@@ -216,7 +223,8 @@ def check_print(ctx, rng, conn, entries, case, full_reload):
     if ftext == '' and full_reload:
         from beancount import loader
         from beancount.core.compare import hash_entry
-        e2, err2, _ = loader.load_string(printed)
+        opts = '\n'.join(l for l in case['ledger'].splitlines() if l.startswith('option '))
+        e2, err2, _ = loader.load_string(opts + '\n' + printed)
         ctx.count('obs.print_full_reloads')
         if err2 or [hash_entry(e, exclude_meta=True) for e in e2] != [hash_entry(e, exclude_meta=True) for e in entries]:
             ctx.violation('c14.print_does_not_load_back', f'PRINT of the whole ledger does not load back to equal directives ({len(err2)} errors)', case)
@@ -225,7 +233,7 @@ def check_print(ctx, rng, conn, entries, case, full_reload):
 def run_case(ctx, n):
     rng = ctx.rng('case', n)
     with_pad = rng.random() < 0.5
-    led = ledgers.gen_ledger(rng, ntxn=rng.randint(3, ctx.pick(14, 50)), with_pad=with_pad)
+    led = ledgers.gen_ledger(rng, ntxn=rng.randint(3, ctx.pick(14, 50)), with_pad=with_pad, renamed_roots=rng.random() < 0.2)
     entries, errors, options = led.loaded
     conn = engine.connection(ledger=led.loaded)
     from ..core import stable_hash
@@ -236,6 +244,47 @@ def run_case(ctx, n):
     for _ in range(ctx.pick(2, 4)):
         check_print(ctx, rng, conn, entries, case, full_reload=not any(type(e).__name__ == 'Pad' for e in entries))
     check_print_clauses(ctx, rng, conn, entries, case)
+    if rng.random() < ctx.pick(0.5, 0.3):
+        check_shell_route(ctx, rng, led, conn, case)
+
+
+def check_shell_route(ctx, rng, led, conn, case):
+    """The statements typed in the shell print what the API route gives (PRINT: the same lossless text)."""
+    import contextlib, os, shutil, tempfile
+    from beanquery import shell, compiler, query_execute
+    tmp = tempfile.mkdtemp(prefix='bqv-c14-')
+    try:
+        path = os.path.join(tmp, 'l.beancount')
+        with open(path, 'w') as f:
+            f.write(led.text)
+        out = io.StringIO()
+        with contextlib.redirect_stdout(io.StringIO()), contextlib.redirect_stderr(io.StringIO()):
+            sh = shell.BQLShell(path, out, interactive=False, runinit=False)
+        for text in ('PRINT', 'PRINT ' + rng.choice([f for f, _ in PRINT_FILTERS if f])):
+            out.seek(0)
+            out.truncate()
+            with contextlib.redirect_stdout(io.StringIO()), contextlib.redirect_stderr(io.StringIO()):
+                sh.onecmd(text)
+            exp = io.StringIO()
+            query_execute.execute_print(compiler.compile(sh.context, sh.context.parse(text)), exp)
+            ctx.count('obs.print_through_shell')
+            # expectation computed on the shell's own connection with the documented natural-precision printing
+            from beancount.parser import printer
+            from beancount.core import display_context
+            if out.getvalue() != exp.getvalue():
+                ctx.violation('c14.print_shell_route', f'{text} typed in the shell differs from PRINT through the API', dict(case, statement=text))
+                return
+            # and it is lossless: numbers keep every digit
+            from beancount.parser import parser as bparser
+            pentries, perrors, _ = reparse(out.getvalue(), case['ledger'])
+            entries = [e for e in sh.context.tables['entries'].entries]
+            if text == 'PRINT' and not perrors and len(pentries) == len(entries):
+                for a, b in zip(pentries, entries):
+                    if normalise(a) != normalise(b):
+                        ctx.violation('c14.print_lossy', f'PRINT typed in the shell: printed directive differs from the ledger\'s: {normalise(a)} vs {normalise(b)}', dict(case, statement=text))
+                        return
+    finally:
+        shutil.rmtree(tmp, ignore_errors=True)
 
 
 def check_print_clauses(ctx, rng, conn, entries, case):
@@ -251,7 +300,7 @@ def check_print_clauses(ctx, rng, conn, entries, case):
     except Exception as exc:  # noqa: BLE001
         ctx.violation('c14.print_failed.clauses', f'PRINT FROM {clauses}: {exc!r}', dict(case, statement=f'PRINT FROM {clauses}'))
         return
-    pentries, perrors, _ = bparser.parse_string(out.getvalue())
+    pentries, perrors, _ = reparse(out.getvalue(), case['ledger'])
     seen = []
     for (e,) in rows:
         if not seen or seen[-1] is not e:
@@ -280,7 +329,7 @@ def replay(ctx, case):
 def finalize(merged):
     c = merged['counters']
     reasons = []
-    for k in ('obs.balances_cases', 'obs.journal_cases', 'obs.print_cases', 'obs.print_full_reloads', 'obs.print_clause_cases'):
+    for k in ('obs.print_through_shell', 'obs.balances_cases', 'obs.journal_cases', 'obs.print_cases', 'obs.print_full_reloads', 'obs.print_clause_cases'):
         if c.get(k, 0) == 0:
             reasons.append(f'{k} == 0')
     types = merged['sets'].get('printed_directive_types', set())
